@@ -33,17 +33,17 @@ def dset {α} : Dict α → Nat → α → Dict α
   | [], k, v => [(k, v)]
   | (k', v') :: r, k, v => if k' = k then (k, v) :: r else (k', v') :: dset r k v
 
-/-- `del d[k]` for a key that may be absent (callers check presence where Python raises) -/
-def ddel {α} : Dict α → Nat → Dict α
-  | [], _ => []
-  | (k', v') :: r, k => if k' = k then r else (k', v') :: ddel r k
+/-- `del d[k]` for a key that may be absent (callers check presence where Python raises); keys are distinct,
+so dropping every entry with that key drops the one there is -/
+def ddel {α} (d : Dict α) (k : Nat) : Dict α := d.filter (fun e => e.1 ≠ k)
 
 def dhas {α} (d : Dict α) (k : Nat) : Bool := (dget d k).isSome
 
 abbrev PSet := List Nat
 
 def sadd (s : PSet) (x : Nat) : PSet := if x ∈ s then s else s ++ [x]
-def sremove (s : PSet) (x : Nat) : PSet := s.erase x
+/-- `s.remove(x)` / `s.discard(x)` (members are distinct) -/
+def sremove (s : PSet) (x : Nat) : PSet := s.filter (· ≠ x)
 /-- iteration order of a set: insertion order, or its reverse -/
 def siter (rev : Bool) (s : PSet) : List Nat := if rev then s.reverse else s
 /-- `s.update(o)`: members of `o` are inserted in `o`'s iteration order -/
@@ -127,8 +127,8 @@ def meld (rev : Bool) (rank : List Nat) : Nat → PSet → CF → Except Err CF
     match pick rank pending with
     | none => .ok cf
     | some h => do
-      let cf ← meldOne rev (pending.erase h) cf h
-      meld rev rank n (pending.erase h) cf
+      let cf ← meldOne rev (sremove pending h) cf h
+      meld rev rank n (sremove pending h) cf
 
 /-- `load_nodes(nodes)` -/
 def CF.loadNodes (rev : Bool) (rank : List Nat) (cf : CF) (nodes : List (Nat × Nat)) : Except Err CF :=
